@@ -74,7 +74,7 @@ func (r *BufferReader) ReadWire(l int) (Wire, error) {
 	if r.pos >= len(r.buf) && l > 0 {
 		return nil, io.EOF
 	}
-	if r.pos+l > len(r.buf) {
+	if l < 0 || l > len(r.buf)-r.pos {
 		return nil, io.ErrUnexpectedEOF
 	}
 	p := r.pos
@@ -83,7 +83,7 @@ func (r *BufferReader) ReadWire(l int) (Wire, error) {
 }
 
 func (r *BufferReader) ReadBuf(l int) (Buffer, error) {
-	if r.pos+l > len(r.buf) {
+	if l < 0 || l > len(r.buf)-r.pos {
 		return nil, io.ErrUnexpectedEOF
 	}
 	p := r.pos
@@ -107,7 +107,7 @@ func (r *BufferReader) Range(start, end int) Wire {
 }
 
 func (r *BufferReader) Delegate(l int) ParseReader {
-	if l < 0 || r.pos+l > len(r.buf) {
+	if l < 0 || l > len(r.buf)-r.pos {
 		return NewBufferReader([]byte{})
 	}
 	subBuf := r.buf[r.pos : r.pos+l]
@@ -173,6 +173,9 @@ func (r *WireReader) ReadWire(l int) (Wire, error) {
 	if !r.nextSeg() && l > 0 {
 		return nil, io.EOF
 	}
+	if l < 0 || l > r.Length()-r.Pos() {
+		return nil, io.ErrUnexpectedEOF
+	}
 	ret := make(Wire, 0, len(r.wire)-r.seg)
 	for l > 0 {
 		if r.seg >= len(r.wire) {
@@ -193,8 +196,12 @@ func (r *WireReader) ReadWire(l int) (Wire, error) {
 }
 
 func (r *WireReader) ReadBuf(l int) (Buffer, error) {
-	if !r.nextSeg() && l > 0 {
+	if l < 0 || l > r.Length()-r.Pos() {
 		return nil, io.ErrUnexpectedEOF
+	}
+	if !r.nextSeg() {
+		// Everything has been consumed (so l is zero)
+		return Buffer{}, nil
 	}
 	if r.pos+l <= len(r.wire[r.seg]) {
 		p := r.pos
@@ -236,33 +243,28 @@ func (r *WireReader) Range(start, end int) Wire {
 	if start < 0 || end > r.accSz[len(r.wire)] || start > end {
 		return nil
 	}
-	var startSeg, startPos, endSeg, endPos int
+	// Collect the part of every segment that lies inside [start, end)
+	ret := make(Wire, 0, len(r.wire))
 	for i := 0; i < len(r.wire); i++ {
-		if r.accSz[i] <= start && r.accSz[i+1] > start {
-			startSeg = i
-			startPos = start - r.accSz[i]
-		}
-		if r.accSz[i] < end && r.accSz[i+1] >= end {
-			endSeg = i
-			endPos = end - r.accSz[i]
+		lo := max(start, r.accSz[i])
+		hi := min(end, r.accSz[i+1])
+		if lo < hi {
+			ret = append(ret, r.wire[i][lo-r.accSz[i]:hi-r.accSz[i]])
 		}
 	}
-	if startSeg == endSeg {
-		return Wire{r.wire[startSeg][startPos:endPos]}
-	} else {
-		ret := make(Wire, endSeg-startSeg+1)
-		ret[0] = r.wire[startSeg][startPos:]
-		for i := startSeg + 1; i < endSeg; i++ {
-			ret[i] = r.wire[i]
-		}
-		ret[endSeg-startSeg] = r.wire[endSeg][:endPos]
-		return ret
-	}
+	return ret
 }
 
 func (r *WireReader) Skip(n int) error {
 	if n < 0 {
 		return errors.New("encoding.WireReader.Skip: backword skipping is not allowed")
+	}
+	if n > r.Length()-r.Pos() {
+		return io.EOF
+	}
+	if r.seg >= len(r.wire) {
+		// Everything has been consumed (so n is zero)
+		return nil
 	}
 	r.pos += n
 	for r.pos > len(r.wire[r.seg]) {
@@ -276,7 +278,7 @@ func (r *WireReader) Skip(n int) error {
 }
 
 func (r *WireReader) Delegate(l int) ParseReader {
-	if l < 0 || r.seg >= len(r.wire) {
+	if l < 0 || r.seg >= len(r.wire) || l > r.Length()-r.Pos() {
 		return NewBufferReader([]byte{})
 	}
 	if r.pos+l <= len(r.wire[r.seg]) {
